@@ -214,18 +214,21 @@ def work_thermo(arg):
     calls.append(('enthalpy_vaporisation(press)', lambda: a.enthalpy_vaporisation(press=pmid * 0.7), hp))
     calls.append(('saturation_pressure(T2)', lambda: a.saturation_pressure(T2), ref2['saturation_pressure']))
     calls.append(('gas_density(T2)', lambda: a.gas_density(T2), ref2['gas_density']))
-    for (n1, f1, r1), (n2, f2, r2) in itertools.product(calls, calls):
+    # all histories of length 2 and 3: after any one or two earlier calls every call must still give the CoolProp value
+    for hist in list(itertools.product(calls, repeat=2)) + list(itertools.product(calls, repeat=3)):
         for attr in [k for k in vars(a) if k not in ('name', 'alias', 'properties', '_state', '_backend_mode')]:
             delattr(a, attr)
         a._state = None
         a._backend_mode = None
-        core.call(f1)
+        for (n1, f1, r1) in hist[:-1]:
+            core.call(f1)
+        n2, f2, r2 = hist[-1]
         o = core.call(f2)
         out['ev'] += 1
         out['nt'] += 1
         if not o.ok or abs(float(o.value) - r2) > 1e-9 * abs(r2):
-            v('property-depends-on-previous-call', f'{n2} after {n1} = {o.value if o.ok else o.brief()} but CoolProp gives {r2}', r2, o.value if o.ok else o.brief(),
-              {'second': n2.split('(')[0]})
+            v('property-depends-on-previous-call', f'{n2} after {[h[0] for h in hist[:-1]]} = {o.value if o.ok else o.brief()} but CoolProp gives {r2}', r2,
+              o.value if o.ok else o.brief(), {'last': n2.split('(')[0]})
     return out
 
 
